@@ -62,7 +62,7 @@ func recordMath(args []string) int {
 	} else {
 		rng := rand.New(rand.NewSource(*seed))
 		anchors := [][2]string{{"sqrt", "4"}, {"sqrt", "2"}, {"sqrt", "0.25"}, {"sqrt", "1e14"}, {"sqrt", "123456789012345"}, {"exp", "0"}, {"exp", "1"}, {"exp", "(-1)"},
-			{"exp", "0.5"}, {"exp", "30"}, {"exp", "(-30)"}, {"exp", "1e-10"}, {"ln", "1"}, {"ln", "2.718281828459045"}, {"ln", "10"}, {"ln", "1e-15"}, {"ln", "1e15"},
+			{"exp", "0.5"}, {"exp", "30"}, {"exp", "(-30)"}, {"exp", "50"}, {"exp", "64"}, {"exp", "100"}, {"exp", "(-100)"}, {"exp", "99.5"}, {"exp", "1e-10"}, {"ln", "1"}, {"ln", "2.718281828459045"}, {"ln", "10"}, {"ln", "1e-15"}, {"ln", "1e15"},
 			{"ln", "1.000001"}, {"ln", "0.97"}, {"ln", "0.9999"}, {"ln", "0.999999999999"}, {"ln", "1.0000000001"}, {"ln", "0.5"}, {"log", "0.97"}, {"log", "0.999999"}, {"log", "1"}, {"log", "10"}, {"log", "1e7"}, {"log", "1e-7"}, {"log", "2"}, {"log", "999999999999999"}}
 		// exact inverses: log of every power of ten 1e-15 .. 1e15, sqrt of squares
 		for k := -15; k <= 15; k++ {
